@@ -7,7 +7,8 @@ Kernels (MIR regenerated from /repo), every arrival-ordered tree up to N blocks,
   b  error agreement: every outcome of the address parser and every too-large c is mapped to corresponding errors
      with equal given/max by both endpoints
   d  query variants: get_balance_query / get_utxos_query reach the same computation as the update variants
-Value agreement on the UTXO overlay itself (kernel c of DESIGN.md) is decided together with C01's overlay kernel.
+  c  value agreement: on transaction-carrying histories the unfiltered balance equals the sum of the reported UTXO values
+     (real ledger code on the model of mirsym/ledger.py)
 """
 import os, sys, time, json
 import z3
@@ -158,6 +159,54 @@ def worker_query(job):
     return (rep.cov, cands.items, rep.inconclusive)
 
 
+def worker_values(job):
+    """kernel c: on transaction-carrying histories (real ledger code, no recorder stubs) the unfiltered balance equals the sum
+    of the values of the UTXOs reported for the same address"""
+    from checks import histlib as HL
+    from mirsym import ledger as L
+    parents, content = job
+    prog = PROG
+    rep = H.Report(PROP, 'quick')
+    cands = Cands()
+    st = Stats()
+    hist = HL.History(parents, content)
+
+    def scenario(it):
+        w = HL.World(it, prog, hist)
+        w.push_all()
+        d = prog.src.find_adt(['GenericState'])
+        svals = dict(utxos=w.us, unstable_blocks=w.ub)
+        state = Agg('GenericState', [Cell(svals.get(f, Opaque(f))) for f in d.fields])
+        sref = Ref(Cell(state))
+        it.overrides['with_state'] = lambda it_, k, r, a: it_.call_value(a[0], [sref])
+        it.overrides['with_state_mut'] = lambda it_, k, r, a: UNIT
+        addr = HL.ADDRS[it.choose(2, 'address')]
+        it.overrides['Address::from_str_checked'] = lambda it_, k, r, a: ok(L.address(addr))
+        chain = it.call('unstable_blocks::get_main_chain', [w.ubref])
+        ru = it.call('get_utxos_from_chain', [sref, StrV(addr), SInt(0, 'u32'), chain, none(), SInt(1000, 'usize')])
+        rb = it.call('get_balance_private', [H.mk_struct(prog, 'types::GetBalanceRequest', address=StrV(addr), min_confirmations=none())])
+        if ru.variant != 0 or rb.variant != 0:
+            cands.add(kernel='c', role='unfiltered-request-errs', model=None, history=hist.descriptor(), address=addr)
+            return
+        resp = ru.fields[0].v.fields[0].v
+        dr = prog.src.find_adt(['ic_btc_interface', 'GetUtxosResponse'])
+        du = prog.src.find_adt(['ic_btc_interface', 'Utxo'])
+        total = z3.IntVal(0)
+        for c in resp.fields[dr.fields.index('utxos')].v.cells:
+            total = total + zterm(c.v.fields[du.fields.index('value')].v.t)
+        m = check_unsat(it, rep, total != zterm(rb.fields[0].v.t))
+        if m is not None:
+            cands.add(kernel='c', role='balance-differs-from-sum-of-utxos', model=m, history=hist.descriptor(), address=addr)
+        return len(resp.fields[dr.fields.index('utxos')].v.cells)
+
+    res = explore(prog, scenario, stats=st, on_panic=lambda it, e: cands.add(
+        kernel='c', role='trap', model=it.model_ if it.feasible() else None, history=hist.descriptor(), msg=str(e)[:300]))
+    rep.add_stats(st, 'c:value-agreement')
+    if any((r or 0) >= 2 for r in res):
+        rep.cov['witnesses'] += 1
+    return (rep.cov, cands.items, rep.inconclusive)
+
+
 def height_rule_cut(best, c):
     """get_balance's documented notion: a block at index i has len - i confirmations"""
     ln = len(best)
@@ -165,6 +214,12 @@ def height_rule_cut(best, c):
 
 
 def confirm(cand, known):
+    if cand.get('kernel') == 'c':
+        from checks.c01 import native_views, judge_native_views
+        res = native_views(cand['history'])
+        probs = [p for p in judge_native_views(cand['history'], res, want_heights=False) if 'get_balance' in p]
+        doc = dict(property=PROP, role=cand['role'], summary={k: v for k, v in cand.items() if k != 'shape'}, problems=probs[:3])
+        return ('violation' if probs else 'not-reproduced'), doc
     ts = btc.TreeScenario(list(cand['shape'][1]))
     diffs = {int(k): v for k, v in cand['diffs'].items()}
     c = cand.get('c') if isinstance(cand.get('c'), int) else 0
@@ -213,7 +268,7 @@ def main():
     btc.load_dep_decls(prog)
     rep.cov['bounds'] = dict(tree_blocks=N, difficulty='symbolic in [1, 2^100)', min_confirmations='absent, or symbolic u32 (0 included)',
                              address_outcomes='Ok / MalformedAddress / WrongNetwork (nondeterministic stub)',
-                             outside='values on the overlay (kernel c, decided with C01); trees beyond the bound; while a block is being ingested in slices (C08)')
+                             outside='trees beyond the bound; while a block is being ingested in slices (C08); filtered requests on the value kernel (the cut itself is kernel a)')
     rep.cov['mir'] = prog.info
     rep.cov['functions_encoded'] = ['get_balance_private (+closures)', 'get_balance::{get_balance,get_balance_query}', 'get_utxos_from_chain',
                                     'get_utxos_private', 'get_utxos::{get_utxos,get_utxos_query}', 'get_utxos_internal', 'get_stability_count',
@@ -228,6 +283,15 @@ def main():
         merge_partial(rep, cands, part)
     for part in parallel(list(shapes_upto(min(N, 4))), worker_query):
         merge_partial(rep, cands, part)
+    from checks import histlib as HL
+    r = C.rng()
+    hjobs = [(p, c) for p, c in HL.HANDCRAFTED]
+    for parents in shapes_upto(3 if tier == 'quick' else 4):
+        if parents:
+            hjobs += [(h.parents, h.content) for h in HL.valid_histories(parents, r, 3 if tier == 'quick' else 8)]
+    for part in parallel(hjobs, worker_values):
+        merge_partial(rep, cands, part)
+    rep.cov['bounds']['value_kernel'] = '%d transaction-carrying histories (checks/histlib.py), both addresses, unfiltered requests, amounts symbolic' % len(hjobs)
     rep.cov['traces_validated_against_impl'] += 0
     settle(rep, PROP, cands, confirm, H.load_known(PROP), cap=10, describe=lambda d: '%s %s' % (d.get('problems'), d.get('summary')))
     return rep.finish()
